@@ -17,6 +17,8 @@ from ..oracles import cr3bp as ref
 class _Raise(Exception):
     pass
 
+MECH_VERT = "vertical-amplitude-seed-half-arc-not-a-period"
+
 
 def make_residual(rng, n, m, kind):
     """Random smooth maps R^n -> R^m with controllable pathologies (deterministic functions of x)."""
@@ -182,7 +184,10 @@ def orbit_monitor(ctx, specs):
         mu = float(sysm.mu)
         pt = sysm.get_libration_point(L)
         try:
-            if fam == "vertical":
+            if fam == "vertical-analytic":
+                # the documented constructor path: analytic (Richardson) seed generated from amplitude_z, placed at maximum |z|
+                orb = pt.create_orbit(VerticalOrbit, amplitude_z=kw["amplitude_z"])
+            elif fam == "vertical":
                 # in-domain seed for the vertical family: centre-manifold point on the q3 = 0 section (z0 = 0)
                 cm = pt.get_center_manifold(degree=kw.get("degree", 6))
                 cm.compute()
@@ -236,12 +241,20 @@ def orbit_monitor(ctx, specs):
         nM = np.linalg.norm(M, 2)
         clos = np.linalg.norm(xT - x0)
         ctx.stat("closure/(tol*|M|)", clos / (tol * nM))
+        mech = None
+        if fam == "vertical-analytic" and clos > 20 * tol * nM + 1e-10 and abs(x_seed[2]) > 1e-6:
+            # recorded finding: the family's scheme (controls vz, vy; residual vx = y = 0 at the first z = 0 crossing; period = 2 x
+            # crossing time) makes the arc symmetric about that crossing — x(T) = R x(0), R = diag(1,-1,-1,-1,1,1) — which is a
+            # period only when the seed lies on the x axis; a seed at maximum |z| is handed back as "converged" without being periodic
+            R = np.array([1.0, -1.0, -1.0, -1.0, 1.0, 1.0])
+            if np.linalg.norm(xT - R * x0) <= 1e-6 * max(1.0, nM * 1e-3):
+                mech = MECH_VERT
         ctx.check(clos <= 20 * tol * nM + 1e-10, "O:propagating one period with an independent integrator returns to the start",
-                  lambda: {**wit(), "closure": clos, "normM": nM})
+                  lambda: {**wit(), "closure": clos, "normM": nM, "x(T)": xT}, mech)
         coord = {"_y_plane_crossing": 1, "_z_plane_crossing": 2, "_x_plane_crossing": 0}.get(getattr(cfg.event_func, "__name__", ""), None)
         # event_func objects are closures named _section_crossing: identify the plane from the family's documented symmetry
         if coord is None:
-            coord = 2 if fam == "vertical" else 1
+            coord = 2 if fam.startswith("vertical") else 1
         tc, yc = _first_crossing(x0, mu, coord, 0.75 * T)
         ok = ctx.check(tc is not None, "O:an admissible plane crossing exists within the period", wit)
         if ok:
@@ -275,7 +288,9 @@ def run(ctx):
          ("earth-moon", 1, "halo", dict(amplitude_z=0.6, zenith="northern")),
          ("mu=0.04", 1, "lyapunov", dict(amplitude_x=0.02)),
          ("earth-moon", 2, "lyapunov", dict(amplitude_x=0.02)),
-         ("earth-moon", 1, "vertical", dict(energy=0.6))]
+         ("earth-moon", 1, "vertical", dict(energy=0.6)),
+         ("earth-moon", 2, "vertical-analytic", dict(amplitude_z=0.05)),
+         ("earth-moon", 1, "vertical-analytic", dict(amplitude_z=0.02))]
     t = list(q)
     if not ctx.quick:
         rng = np.random.default_rng(ctx.seed + 5)
@@ -287,6 +302,9 @@ def run(ctx):
         for L in (1, 2):
             for e in (0.2, 0.4, 0.8):
                 t.append(("earth-moon", L, "vertical", dict(energy=e)))
+            for nm_ in ("earth-moon", "sun-earth"):
+                for a in (0.01, 0.1, 0.2):
+                    t.append((nm_, L, "vertical-analytic", dict(amplitude_z=float(a * rng.uniform(0.8, 1.2)) * (1.0 if nm_ == "earth-moon" else 0.02))))
     guarded(ctx, "orbits", orbit_monitor, ctx, q if ctx.quick else t)
     m = 1 if ctx.nshards > 1 else 1
     ctx.require("S:a returned state meets the tolerance (re-evaluated by the monitor)", 30 if ctx.nshards == 1 else 5)
